@@ -815,13 +815,29 @@ func availableImpliesReady(r *Run, rule string) bool {
 		r.Fatal("anchor %s.IsPodAvailable not found", pkgPodUtils)
 		return false
 	}
-	paths, _, ok := funcPaths(fn, 5000)
+	paths, ok := truePaths(fn, 0, 5000)
 	r.paths += len(paths)
 	if !ok || len(fn.Params) == 0 {
 		r.Undecided(rule, "available implies ready", r.Prog.Pos(fn.Pos()), shortFunc(fn), "path cap exceeded")
 		return false
 	}
 	pod := fn.Params[0]
+	isPodStatus := func(v ssa.Value) bool {
+		root, p := accessPath(v)
+		return root == ssa.Value(pod) && len(p) == 1 && p[0] == "Status"
+	}
+	// the pod's Ready condition looked up by hand: GetPodReadyCondition(pod.Status) or
+	// GetPodCondition(&pod.Status, PodReady)#1
+	isReadyCond := func(v ssa.Value) bool {
+		if c, ok := isCallTo(v, pkgPodUtils+".GetPodReadyCondition"); ok && len(c.Call.Args) == 1 {
+			return isPodStatus(c.Call.Args[0])
+		}
+		if c, ok := isResultOf(v, pkgPodUtils+".GetPodCondition", 1); ok && len(c.Call.Args) == 2 {
+			s, isS := constString(c.Call.Args[1])
+			return isS && s == "Ready" && isPodStatus(c.Call.Args[0])
+		}
+		return false
+	}
 	isReadyCall := func(v ssa.Value) bool {
 		c, isCall := v.(*ssa.Call)
 		if !isCall || len(c.Call.Args) == 0 {
@@ -840,12 +856,16 @@ func availableImpliesReady(r *Run, rule string) bool {
 	n := 0
 	for _, p := range paths {
 		ret := returnOf(p.Blocks[len(p.Blocks)-1])
-		res := p.Resolve(ret.Results[0])
-		if b, isC := constBool(res); isC && !b {
-			continue
-		}
 		n++
-		ready := p.Has(true, func(v ssa.Value, _ string) bool { return isReadyCall(v) }) || isReadyCall(res)
+		ready := p.Has(true, func(v ssa.Value, _ string) bool {
+			if isReadyCall(v) {
+				return true
+			}
+			return isEqCompare(v, func(x ssa.Value) bool {
+				rt, fp := accessPath(x)
+				return len(fp) == 1 && fp[0] == "Status" && isReadyCond(rt)
+			}, isConstStringVal("True"))
+		})
 		if !ready {
 			all = false
 		}
